@@ -18,8 +18,8 @@ def _tier(tier):
         return dict(mc=[("Controller_quick_light.cfg", 60), ("Controller_quick_full.cfg", 60)], mc_workers=4,
                     sims=[("Controller_sim_light.cfg", 170, 14), ("Controller_sim_full.cfg", 170, 14)],
                     record_runs=100)
-    return dict(mc=[("Controller_thorough_light.cfg", 1500), ("Controller_thorough_full.cfg", 1500),
-                    ("Controller_thorough_full3.cfg", 1500)], mc_workers=4,
+    return dict(mc=[("Controller_thorough_light.cfg", 1800), ("Controller_thorough_full.cfg", 1800),
+                    ("Controller_thorough_full3.cfg", 1800)], mc_workers=4,
                 sims=[("Controller_sim_light.cfg", 1500, 18), ("Controller_sim_full.cfg", 1500, 18)],
                 record_runs=1500)
 
